@@ -45,11 +45,13 @@ CLAIMED = {
              "writing, early return, failing), every readiness pattern and every client whose segments are whole records and whose gates "
              "ask only for management replies owed for records of earlier segments (pipelining allowed), the connection task returns - the "
              "two sides never wait on each other (global counting invariant over both parsers, handler output, partial flushes, close). "
-             "Clients that additionally wait for EndRequest records (the one-outstanding client of C07) are covered by the correspondence check: closed-loop gated clients with queries before / between / inside "
+             "C08_client_never_deadlocks: the same for the one-outstanding client of C07 (one complete request per segment, request j+1 "
+             "released after exactly j EndRequest records and at most the management replies owed so far) - it is never waited for in "
+             "vain either, whether it waits for an EndRequest or for a management reply. End to end the correspondence check adds: closed-loop gated clients with queries before / between / inside "
              "requests and in the same read as a request's end, on an executor that re-polls only on wake. Defects F1 and F2 found here are "
              "repaired in /repo (1a75639, fd29a7b); their replays are in corpus/C08 and run first.",
         design="6/C08, 13.3", technique="Coq proof (totality + reply accounting at every suspension point of the connection model) + differential execution with closed-loop gated clients on a wake-only executor",
-        note="the whole-connection theorem is for peers that gate on management replies (ge = 0); gating on EndRequest records as well is by correspondence; the property's 'once the running handler reads input or returns' is reflected by handlers always progressing in the model; executor/waker protocol modelled by contract."),
+        note="two whole-connection theorems: peers gating on management replies only (pipelining allowed), and the strict one-outstanding client gating on EndRequest and management replies (no stray BeginRequest/AbortRequest records); other mixtures are by correspondence; the property's 'once the running handler reads input or returns' is reflected by handlers always progressing in the model; executor/waker protocol modelled by contract."),
     "C09": dict(
         text="Proof on the connection model: C09_poll_input / C09_await_input - for ONE poll or awaited read with any caller buffer (read into c bytes, "
              "fill_buf), any transport read/write behaviour and pending parser output: with dl the bytes handed over, K(before)(remaining) = dl "
